@@ -374,3 +374,27 @@ def repo_state():
     rc, head = sh(['git', '-C', str(REPO), 'rev-parse', 'HEAD'])
     rc2, st = sh(['git', '-C', str(REPO), 'status', '--porcelain', '--', 'femio'])
     return {'head': head.strip(), 'dirty_files': [l[3:] for l in st.splitlines()]}
+
+
+def lean_closure(modules):
+    """source text of the transitive `import Femio.…` closure of the given modules"""
+    seen, todo, text = set(), list(modules), []
+    while todo:
+        m = todo.pop()
+        if m in seen or not m.startswith('Femio'):
+            continue
+        seen.add(m)
+        f = module_file(m)
+        if not f.exists():
+            continue
+        src = f.read_text()
+        if m != 'Femio.Gen.Tables':
+            text.append(src)
+        todo += re.findall(r'^import\s+(Femio[\w.]*)', src, re.M)
+    return '\n'.join(text)
+
+
+def uses_generated(modules, names):
+    """which of the generated definitions `names` occur in the import closure of `modules`"""
+    src = lean_closure(modules)
+    return sorted(n for n in names if re.search(r'(?<![\w.])(?:Femio\.Gen\.|Gen\.)?' + re.escape(n) + r'(?![\w])', src))
